@@ -257,3 +257,46 @@ def run_world_after_reset(c, w, s1, q1):
         quic_sessions.append(q1)
     c.summary_override(M + ".handle_quic_packet", hq)
     return w
+
+
+@harness(["C10"], "run.portmap_reaches_the_handlers_as_parsed", functions=[M + ".run"], cases=[("tcp",), ("udp",)])
+def h_portmap(c, kind):
+    """the -m pairs, exactly as get_port_map parsed them, are what the TLS and the QUIC handler work with: run() neither adds, drops nor
+    rewrites a pair - whether or not the mapped server port is one of the ports checked for TLS (a QUIC connection is not gated by that
+    list, and its server port is mapped like any other)"""
+    if c.native:
+        return
+    w = run_world(c, kind)
+    # two pairs: a server port that is NOT among the ports checked for TLS (neither a default nor this run's -p) and one that is; the
+    # mapped-to ports are arbitrary.  (The keys are concrete because the engine concretises dictionary keys; that run() treats every key
+    # alike rests on the frame obligation below: it has no statement that changes the map.)
+    a_port, b_port = 5555, c.int("mapped_to", 1, 65535)
+    a2, b2 = 443, c.int("second_mapped_to", 1, 65535)
+    pm = {a_port: b_port, a2: b2}
+    w["portmap"] = pm
+    c.ensure("frame.run_does_not_change_the_map", c.not_changed_in(M + ".run", "portmap"), kind="frame")
+    c.set(w["args"], "checksumTest", False)
+    c.set(w["args"], "greasy", True)
+    c.assume(len_(w["payload"]) > 0)
+    seen = []
+
+    def snapshot(ctx, *a, **k):
+        allv = list(a) + list(k.values())
+        got = [x for x in allv if x is pm]
+        seen.append((len(got), [(kk, vv) for kk, vv in pm.items()]))
+    c.summary_override(M + ".handle_packet", snapshot)
+    c.summary_override(M + ".handle_quic_packet", snapshot)
+    out = c.call(M + ".run")
+    c.ensure("no_raise", out.exc is None, kind="raises")
+    if out.exc is not None:
+        return
+    c.ensure("handler_called", len(seen) == 1)
+    if len(seen) == 1:
+        n_same, items = seen[0]
+        c.ensure("handler_gets_the_parsed_map_itself", n_same == 1)
+        c.ensure("every_pair_still_there_and_unchanged", len(items) == 2 and all(
+            any(c.prove(band(eq(k, wk), eq(v, wv))) for k, v in items) for wk, wv in [(a_port, b_port), (a2, b2)]))
+    c.cover("handled")
+
+
+h_portmap.must_cover = ["handled"]
